@@ -14,7 +14,7 @@ INFO = {
 }
 
 
-def h_dt(f, N1, ext):
+def h_dt(f, N1, ext, same=False):
     f = T(f)
     vs = sorted(variables(f))
     h = hor(f)
@@ -24,7 +24,7 @@ def h_dt(f, N1, ext):
         w2 = dt.trace(env, vs, N1 + ext)
         w1 = {v: w2[v][:N1] for v in vs}
         s1 = dt.make_spec('offline', 'out = ' + text(f), vs)
-        s2 = dt.make_spec('offline', 'out = ' + text(f), vs)
+        s2 = s1 if same else dt.make_spec('offline', 'out = ' + text(f), vs)     # same: one object evaluates the growing trace
         r1 = [p[1] for p in dt.offline(s1, w1, N1)]
         r2 = [p[1] for p in dt.offline(s2, w2, N1 + ext)]
         env.observe('short', r1)
@@ -49,7 +49,7 @@ def dense_hor(f):
     return m
 
 
-def h_ct(f, ns, ext):
+def h_ct(f, ns, ext, same=False):
     f = T(f)
     vs = sorted(variables(f))
     h = dense_hor(f)
@@ -59,7 +59,7 @@ def h_ct(f, ns, ext):
         full = {v: ct.signal(env, v, n + e, 'zero') for v, n, e in zip(vs, ns, ext)}
         short = {v: full[v][:n] for v, n in zip(vs, ns)}
         s1 = ct.make_spec('offline', 'out = ' + text(f), vs)
-        s2 = ct.make_spec('offline', 'out = ' + text(f), vs)
+        s2 = s1 if same else ct.make_spec('offline', 'out = ' + text(f), vs)
         o1 = [list(p) for p in s1.evaluate(*[[v, [list(p) for p in short[v]]] for v in vs])]
         o2 = [list(p) for p in s2.evaluate(*[[v, [list(p) for p in full[v]]] for v in vs])]
         env.observe('short', o1)
@@ -126,5 +126,15 @@ def obligations(tier, rng):
                 two = len(variables(f)) > 1
                 out.append(ob('C16', 'ct', 'ct/nested-past/%s' % text(f), f=f, ns=[2, 2] if two else [3], ext=[1, 1] if two else [1],
                               max_paths=60000, wall=(300 if quick else 1500)))
+    # ONE specification object evaluating first the trace and then its extension (the usual way of monitoring a growing log)
+    for f in f1:
+        if quick and not (refsem.has_future(f) or f[0] in ('once', 'historically', 'since', 'prev', 'rise', 'once_t', 'since_t')):
+            continue
+        h = hor(f)
+        out.append(ob('C16', 'dt', 'dt/same-object/%s/N1=%d+2' % (text(f), h + 2), f=f, N1=h + 2, ext=2, same=True))
+    for f in dfs + [('and', X, Y), ('sub', X, Y), ('since', X, Y), ('once', ('once', X)), ('historically', ('or', X, ('once', Y)))]:
+        two = len(variables(f)) > 1
+        out.append(ob('C16', 'ct', 'ct/same-object/%s' % text(f), f=f, ns=[2, 2] if two else [3], ext=[1, 1] if two else [1], same=True,
+                      max_paths=60000, wall=(300 if quick else 1500)))
     seen = set()
     return [o for o in out if not (o['oid'] in seen or seen.add(o['oid']))]
